@@ -162,6 +162,20 @@ def split_by_tu(cases):
         groups.setdefault(int(c.split()[0]) // 8, []).append(i)
     return groups
 
+def run_exe(exe, inp_path, timeout):
+    """run one harness executable on a case file; bytes in/out (a corrupted run may print anything), a hang is a timeout"""
+    import subprocess
+    env = dict(os.environ); env.setdefault('ASAN_OPTIONS', 'detect_leaks=1:abort_on_error=0')
+    try:
+        r = subprocess.run([exe], stdin=open(inp_path, 'rb'), capture_output=True, timeout=timeout, env=env)
+        rc, o, e = r.returncode, r.stdout, r.stderr
+    except subprocess.TimeoutExpired as ex:
+        rc, o, e = 124, ex.stdout or b'', (ex.stderr or b'') + b' TIMEOUT (hang) after %ds' % timeout
+    lines = o.decode('utf8', 'replace').split('\n')
+    if lines and lines[-1] == '': lines.pop()
+    elif rc != 0 and lines: lines.pop()          # an incomplete last line belongs to the crashed case
+    return rc, lines, e.decode('utf8', 'replace')
+
 def run_impl(ctx, harn, cases, name):
     """run the real code: each case goes to the harness executable that holds its configuration.
     A crash (assert, segfault on poisoned freed memory, sanitizer report) is attributed to the case being run and the
@@ -173,7 +187,7 @@ def run_impl(ctx, harn, cases, name):
             rounds += 1
             path = os.path.join(ctx.build, '%s.tu%d.cases' % (name, tu))
             open(path, 'w').write('\n'.join(cases[i] for i in todo) + '\n')
-            rc, lines, e = ctx.run_lines([harn[tu]], path)
+            rc, lines, e = run_exe(harn[tu], path, 150 if ctx.quick() else 900)
             n = min(len(lines), len(todo))
             for j in range(n):
                 out[todo[j]] = lines[j]
